@@ -19,13 +19,13 @@ ResetTo(k) ==
 
 Step(ev) ==
   CASE ev.a = "init"      -> ev.arg.nh = NH /\ ev.arg.nobj = NObj /\ ev.arg.max = Max /\ ev.arg.kind \in Kinds /\ ResetTo(ev.arg.kind)
-    [] ev.a = "create"    -> OCreate(ev.arg.h, ev.arg.c, ev.arg.via)
+    [] ev.a = "create"    -> OCreate(ev.arg.h, ev.arg.c, ev.arg.via, ev.arg.how)
     [] ev.a = "wrap"      -> Wrap(ev.arg.h, ev.arg.c, ev.arg.g)
     [] ev.a = "copy"      -> OCopy(ev.arg.h, ev.arg.g, ev.arg.via)
     [] ev.a = "take"      -> Take(ev.arg.h, ev.arg.g, ev.arg.s)
     [] ev.a = "setmember" -> SetMember(ev.arg.h, ev.arg.g, ev.arg.s, ev.arg.via)
     [] ev.a = "drop"      -> ODrop(ev.arg.h, ev.arg.via)
-    [] ev.a = "clone"     -> OClone(ev.arg.h, ev.arg.g)
+    [] ev.a = "clone"     -> OClone(ev.arg.h, ev.arg.g, ev.arg.fail)
     [] ev.a = "rawref"    -> ORawRef(ev.arg.o)
     [] ev.a = "rawunref"  -> ORawUnref(ev.arg.o)
     [] ev.a = "poke"      -> OPoke(ev.arg.o, ev.arg.v)
@@ -40,6 +40,7 @@ Matches(ev) ==
   /\ Len(e.gone) = Len(o.gone) /\ SeqSet(e.gone) = SeqSet(o.gone)
   /\ e.cnt = o.cnt
   /\ (e.quiet = 0 => o.quiet = 0)
+  /\ (e.dblk = 0 => o.dblk = 0)
   /\ e.badfree = o.badfree
 
 TraceInit ==
